@@ -1127,14 +1127,19 @@ class Gen:
 
     def closure_contract(self, text, fname, arg, spec, log):
         """contract on a closure of the real body: `|p| BODY` -> `|p: T| -> (r: R) <spec> { BODY }` (BODY untouched)"""
-        m = re.match(r"`(.*?)`\s+params=`(.*?)`\s+ret=`(.*?)`(?:\s+bind=`(.*?)`)?\s*:$", arg)
+        m = re.match(r"(?:#(\d+)\s+)?`(.*?)`\s+params=`(.*?)`\s+ret=`(.*?)`(?:\s+bind=`(.*?)`)?\s*:$", arg)
         if not m:
             raise WbxError(f"bad closure directive `{arg}`")
-        anchor, params, ret, bind = m.groups()
+        which, anchor, params, ret, bind = m.groups()
         bind = (bind + " ") if bind else ""
         hits = find_tokens(text, anchor, "closure")
         if not hits:
             raise WbxError(f"lost anchor: closure `{anchor}` not found in fn {fname}")
+        if which is not None:
+            # `#k`: only the k-th occurrence (in the text as it is when this directive is applied) gets this contract
+            if int(which) >= len(hits):
+                raise WbxError(f"lost anchor: occurrence #{which} of closure `{anchor}` in fn {fname}")
+            hits = [hits[int(which)]]
         if len(hits) > 1:
             # apply to every occurrence, last first (offsets stay valid)
             for _ in range(len(hits) - 1):
